@@ -18,6 +18,12 @@ Case kinds
   tlops   (c18ops.py) a sequence of addProduct / write (flavor override, noaction) / read on ONE
           TaggedProductList, the object and the files observed after every step
   mops    (c18ops.py) the same on ONE Manifest: addDependency / write / read / reverse
+
+Field widths: the writers pad their columns ("%-20s %-10s %s", "%-15s %-12s %-10s %-25s %-30s %s"); four cases
+in ten of every stream ("wide" cases) draw a third of their fields from words of the lengths around every column
+width (w-1, w, w+1) and far beyond (LONG_*), and the directed family gen_widths meets every column with every
+such length; histogram keys widths/<kind>/<column>=exact|wider and family/widths/<kind>.
+Theorems: coq/Proofs/ManifestWidth.v (column_separated, *_line_fields_any_width).
 """
 import re
 import json
@@ -122,28 +128,62 @@ IDS = [None, None, "", "None", "search", "a-1.tar.gz", "builds/a-1.build"]
 BAD = ["a b", "#x", "", "x\ty", "p\x0bq", " lead", "trail ", "x\ry", "x\ny", "\x1c", "x#y", "(p)", "x\x1fy"]
 EFLS = ["Linux64", "Darwin", "generic"]
 
+# Field WIDTHS.  The two writers pad their columns (tag list: "%-20s %-10s %s" + "  %s" per extra column; manifest:
+# "%-15s %-12s %-10s %-25s %-30s %s"): a field may be shorter than its column, fill it exactly, or be wider, and must
+# still be separated from the next one.  Every stream draws, in its "wide" cases, words of the lengths around every
+# column width (w-1, w, w+1) and well beyond, for every field.
+TL_COLS = {"product": 20, "flavor": 10}
+M_COLS = {"product": 15, "flavor": 12, "version": 10, "table": 25, "dir": 30}
+_FILL = "_extensions_photometryKron_shapeHSM_ctrl_platform_lsstvc_0123456789" * 2
 
-def gen_dep(rng, bad):
-    def pick(pool):
+
+def word_of(stem, n, tail=""):
+    """a word of exactly n characters starting like stem (and ending in tail)"""
+    w = (stem + _FILL)[:n - len(tail)] + tail
+    assert len(w) == n
+    return w
+
+
+LONG_PRODUCTS = [word_of("meas", n) for n in (14, 15, 16, 19, 20, 21, 30, 40)]
+LONG_FLAVORS = [word_of("Linux64-glibc2.17-x86", n) for n in (9, 10, 11, 12, 13, 15, 21)]
+LONG_VERSIONS = [word_of("7.3.1.0+svn", n) for n in (9, 10, 11, 19, 20, 21, 40)]
+LONG_TABLES = [word_of("ups/", n, ".table") for n in (24, 25, 26, 40)]
+LONG_DIRS = [word_of("Linux64/", n) for n in (29, 30, 31, 45)]
+LONG_IDS = [word_of("builds/", n, ".build") for n in (19, 20, 21, 60)]
+LONG_EXTRAS = [word_of("eupspkg:", n) for n in (10, 20, 21, 40)]
+P_WIDE_CASE, P_WIDE_FIELD = 0.4, 0.35
+
+
+def wpick(rng, wide, pool, longpool):
+    """a draw from pool - in a wide case, about a third of the time, from the long words instead"""
+    if wide and rng.random() < P_WIDE_FIELD:
+        return rng.choice(longpool)
+    return rng.choice(pool)
+
+
+def gen_dep(rng, bad, wide=False):
+    def pick(pool, longpool):
         if bad and rng.random() < 0.08:
             return rng.choice(BAD)
-        return rng.choice(pool)
-    return {"product": pick(PRODUCTS), "version": pick(VERSIONS), "flavor": pick(FLAVORS), "table": pick(TABLES),
-            "dir": pick(DIRS), "distid": pick(IDS), "opt": rng.random() < 0.2}
+        return wpick(rng, wide, pool, longpool)
+    return {"product": pick(PRODUCTS, LONG_PRODUCTS), "version": pick(VERSIONS, LONG_VERSIONS),
+            "flavor": pick(FLAVORS, LONG_FLAVORS), "table": pick(TABLES, LONG_TABLES),
+            "dir": pick(DIRS, LONG_DIRS), "distid": pick(IDS, LONG_IDS), "opt": rng.random() < 0.2}
 
 
 def gen_mrt(rng):
     bad = rng.random() < 0.25
+    wide = rng.random() < P_WIDE_CASE
     n = rng.choice([0, 1, 1, 2, 3, 4, 6, 8, 12])
-    deps = [gen_dep(rng, bad) for _ in range(n)]
-    prod = rng.choice([None, "top", "afw", "x(y)"] + (BAD[:4] if bad else []))
-    vers = rng.choice([None, "1.0", "2)", "svn1"] + (BAD[:4] if bad else []))
-    fa = rng.choice([None, None, None, "", "Fl", "generic"] + (["a b"] if bad else []))
+    deps = [gen_dep(rng, bad, wide) for _ in range(n)]
+    prod = wpick(rng, wide, [None, "top", "afw", "x(y)"] + (BAD[:4] if bad else []), LONG_PRODUCTS)
+    vers = wpick(rng, wide, [None, "1.0", "2)", "svn1"] + (BAD[:4] if bad else []), LONG_VERSIONS)
+    fa = wpick(rng, wide, [None, None, None, "", "Fl", "generic"] + (["a b"] if bad else []), LONG_FLAVORS)
     return {"kind": "mrt", "product": prod, "version": vers, "deps": deps, "noopt": rng.random() < 0.6,
-            "fa": fa, "efl": rng.choice(EFLS), "bad": bad}
+            "fa": fa, "efl": wpick(rng, wide, EFLS, LONG_FLAVORS), "bad": bad}
 
 
-def gen_line(rng):
+def gen_line(rng, wide=False):
     r = rng.random()
     if r < 0.1:
         return rng.choice(["", "   ", "# comment", "  # indented comment", "\t#x", "#"])
@@ -151,7 +191,8 @@ def gen_line(rng):
     pools = [PRODUCTS, FLAVORS[3:], VERSIONS, ["a.table", "none"], ["a/1", "none"], ["None", "search", "a.tar"],
              ["OPTIONAL", "OPT", "O", "REQUIRED", "optional", "OPTIONALX"], ["TRUE", "T", "FALSE", "F", "x", "TRUEX"],
              ["e1", "#e2"], ["e3"]]
-    ws = [rng.choice(pools[i]) for i in range(n)]
+    longs = [LONG_PRODUCTS, LONG_FLAVORS, LONG_VERSIONS, LONG_TABLES, LONG_DIRS, LONG_IDS]
+    ws = [wpick(rng, wide and i < 6, pools[i], longs[min(i, 5)]) for i in range(n)]
     sep = rng.choice([" ", "  ", "\t", " \t ", "\x0b", "   "])
     line = sep.join(ws)
     if rng.random() < 0.2:
@@ -183,7 +224,8 @@ def gen_mheader(rng):
 
 
 def gen_mread(rng):
-    lines = [gen_mheader(rng)] + [gen_line(rng) for _ in range(rng.choice([0, 1, 2, 3, 5, 8]))]
+    wide = rng.random() < P_WIDE_CASE
+    lines = [gen_mheader(rng)] + [gen_line(rng, wide) for _ in range(rng.choice([0, 1, 2, 3, 5, 8]))]
     nl = rng.choice(["\n", "\n", "\n", "\r\n", "\r"])
     text = nl.join(lines) + (nl if rng.random() < 0.8 else "")
     return {"kind": "mread", "text": text, "recurse": rng.random() < 0.3}
@@ -194,24 +236,30 @@ TAGS = ["current", "stable", "beta", "w_2026_09", "rc-1"]
 
 def gen_tl(rng):
     bad = rng.random() < 0.2
-    defl = rng.choice([None, "Linux64", "Linux64", "Darwin", "generic"])
+    wide = rng.random() < P_WIDE_CASE
+    defl = wpick(rng, wide, [None, "Linux64", "Linux64", "Darwin", "generic"], LONG_FLAVORS)
     homog = rng.random() < 0.5
     n = rng.choice([0, 1, 2, 3, 5, 8, 12])
     entries = []
     for _ in range(n):
-        p = rng.choice(PRODUCTS + ["B", "Zeta", "_x", "a1", "a-b"] + (BAD if bad else []))
-        v = rng.choice(VERSIONS + (BAD[:3] if bad else []))
-        f = None if homog else rng.choice([None, None, "Linux64", "Darwin", "generic"])
-        ex = [rng.choice(["x", "y", "#c", "1.0"] + (BAD[:2] if bad else [])) for _ in range(rng.choice([0, 0, 0, 1, 2]))]
+        p = wpick(rng, wide, PRODUCTS + ["B", "Zeta", "_x", "a1", "a-b"] + (BAD if bad else []), LONG_PRODUCTS)
+        v = wpick(rng, wide, VERSIONS + (BAD[:3] if bad else []), LONG_VERSIONS)
+        f = None if homog else wpick(rng, wide, [None, None, "Linux64", "Darwin", "generic"], LONG_FLAVORS)
+        ex = [wpick(rng, wide, ["x", "y", "#c", "1.0"] + (BAD[:2] if bad else []), LONG_EXTRAS)
+              for _ in range(rng.choice([0, 0, 0, 1, 2]))]
         entries.append([p, v, f, ex])
     eff = defl if defl is not None else "generic"
-    return {"kind": "tl", "tag": rng.choice(TAGS), "defl": defl, "entries": entries,
-            "fa": rng.choice([None, None, None, None, "Fl", ""]),
-            "rfl": eff if rng.random() < 0.7 else rng.choice(["Linux64", "Darwin", "generic", "Fl"]), "bad": bad}
+    fa = wpick(rng, wide, [None, None, None, None, "Fl", ""], LONG_FLAVORS)
+    seen = [eff] + ([fa] if fa else []) + [e[2] for e in entries if e[2]]
+    return {"kind": "tl", "tag": rng.choice(TAGS), "defl": defl, "entries": entries, "fa": fa,
+            "rfl": (fa or eff) if rng.random() < 0.7 else rng.choice(["Linux64", "Darwin", "generic", "Fl"] + seen),
+            "bad": bad}
 
 
 def gen_tlread(rng):
     tag = rng.choice(TAGS)
+    wide = rng.random() < P_WIDE_CASE
+    rfl = wpick(rng, wide, [None, "Linux64", "Darwin"], LONG_FLAVORS)
     r = rng.random()
     if r < 0.65:
         h = "EUPS distribution %s version list. Version %s" % (tag, rng.choice(["1.0", "2"]))
@@ -228,36 +276,44 @@ def gen_tlread(rng):
             lines.append(rng.choice(["", "  ", "# c", "   #c", "#"]))
         else:
             n = rng.choice([1, 2, 3, 3, 3, 4, 5])
-            pools = [PRODUCTS, ["Linux64", "generic", "Darwin"], VERSIONS, ["x", "#y"], ["z"]]
-            line = rng.choice([" ", "  ", "\t"]).join(rng.choice(pools[i]) for i in range(n))
+            pools = [PRODUCTS, ["Linux64", "generic", "Darwin"] + ([rfl] * 3 if rfl else []), VERSIONS, ["x", "#y"], ["z"]]
+            longs = [LONG_PRODUCTS, LONG_FLAVORS, LONG_VERSIONS, LONG_EXTRAS, LONG_EXTRAS]
+            line = rng.choice([" ", "  ", "\t"]).join(wpick(rng, wide, pools[i], longs[i]) for i in range(n))
             if rng.random() < 0.2:
                 line = " " + line + rng.choice(["", " # tail"])
             lines.append(line)
     nl = rng.choice(["\n", "\n", "\r\n"])
-    return {"kind": "tlread", "tag": tag, "rfl": rng.choice([None, "Linux64", "Darwin"]),
+    return {"kind": "tlread", "tag": tag, "rfl": rfl,
             "text": nl.join(lines) + (nl if rng.random() < 0.8 else "")}
 
 
 MVERS = ["1", "2", "3", "any"]
 
 
-def gen_rows(rng, style):
+def long_names(rng):
+    """(D, V3): the product spelt d and the version spelt 3 in the small pools - long words in wide cases"""
+    if rng.random() < P_WIDE_CASE:
+        return rng.choice(LONG_PRODUCTS), rng.choice(LONG_VERSIONS)
+    return "d", "3"
+
+
+def gen_rows(rng, style, D="d", V3="3"):
     rows = []
-    prods = ["a", "b", "c", "d"]
+    prods = ["a", "b", "c", D]
     n = rng.choice([0, 1, 1, 2, 2, 3, 4, 6])
     for _ in range(n):
         p = rng.choice(prods)
         fl = rng.choice(["generic", "generic", "Linux64", "Darwin"])
         if style == "bijective":
-            inv = rng.choice(["1", "2", "3", "4"])
+            inv = rng.choice(["1", "2", V3, "4"])
             rows.append([p, inv, rng.choice([None, None, p, rng.choice(prods), "e"]),
                          rng.choice(["5", "6", "7", "8", "1", "2"]), fl])
             continue
-        inv = rng.choice(MVERS)
+        inv = rng.choice(["1", "2", V3, "any"])
         r = rng.random()
         if r < 0.62:
             outp = rng.choice([None, None, "", p, rng.choice(prods), "e"])
-            outv = rng.choice(["1", "2", "3", "9", "any"])
+            outv = rng.choice(["1", "2", V3, "9", "any"])
         elif r < 0.92:
             outp = rng.choice([None, None, "e"])
             outv = rng.choice([None, None, ""])
@@ -270,23 +326,24 @@ def gen_rows(rng, style):
 
 def gen_remap(rng):
     style = rng.choice(["free", "free", "bijective"])
-    rows = gen_rows(rng, style)
+    D, V3 = long_names(rng)
+    rows = gen_rows(rng, style, D, V3)
     n = rng.choice([0, 1, 2, 3, 5, 8, 12])
     deps = []
     for _ in range(n):
-        d = gen_dep(rng, False)
-        d["product"] = rng.choice(["a", "b", "c", "d", "e", "f"])
-        d["version"] = rng.choice(["1", "2", "3", "5", "9"])
+        d = gen_dep(rng, False, D != "d")
+        d["product"] = rng.choice(["a", "b", "c", D, "e", "f"])
+        d["version"] = rng.choice(["1", "2", V3, "5", "9"])
         d["distid"] = rng.choice([None, "a-1.tar.gz", "search"])
         deps.append(d)
     return {"kind": "remap", "rows": rows, "fl": rng.choice(["Linux64", "Linux64", "generic", "Darwin"]),
             "deps": deps, "style": style}
 
 
-def gen_deps_small(rng, prods=("a", "b", "c", "d", "e", "f"), vers=("1", "2", "3", "5", "9")):
+def gen_deps_small(rng, prods=("a", "b", "c", "d", "e", "f"), vers=("1", "2", "3", "5", "9"), wide=False):
     deps = []
     for _ in range(rng.choice([1, 2, 3, 5, 8])):
-        d = gen_dep(rng, False)
+        d = gen_dep(rng, False, wide)
         d["product"] = rng.choice(prods)
         d["version"] = rng.choice(vers)
         d["distid"] = rng.choice([None, "a-1.tar.gz", "search"])
@@ -295,9 +352,10 @@ def gen_deps_small(rng, prods=("a", "b", "c", "d", "e", "f"), vers=("1", "2", "3
 
 
 def gen_merge(rng):
-    return {"kind": "merge", "rows": gen_rows(rng, "free"), "other": gen_rows(rng, "free"),
+    D, V3 = long_names(rng)
+    return {"kind": "merge", "rows": gen_rows(rng, "free", D, V3), "other": gen_rows(rng, "free", D, V3),
             "overwrite": rng.random() < 0.5, "fl": rng.choice(["Linux64", "Linux64", "generic", "Darwin"]),
-            "deps": gen_deps_small(rng)}
+            "deps": gen_deps_small(rng, ("a", "b", "c", D, "e", "f"), ("1", "2", V3, "5", "9"), D != "d")}
 
 
 RF_PRODUCTS = ["a", "b", "c", "d", "tcltk"] * 4 + ["verbose", "[x]", "p=q", "a]"]
@@ -312,14 +370,17 @@ RF_OTHER = ["", "   ", "# a comment", "  # indented", "#", "verbose=1", "verbose
             ":1 2", "a :1", "a 2:", "a :2", "a\t:", "x#y 1", "a:1 2#c", "a:1#c 2", "\x0ba:3 9\x0c"]
 
 
-def gen_remap_line(rng, mode=None):
+def gen_remap_line(rng, mode=None, D="d", V3="3"):
     if rng.random() < 0.2:
         return rng.choice(RF_OTHER)
     sep = rng.choice(RF_SEP)
-    fields = [rng.choice(RF_PRODUCTS) + rng.choice(RF_INV)]
+
+    def sub(w):
+        return ":".join(D if x == "d" else V3 if x == "3" else x for x in w.split(":"))
+    fields = [sub(rng.choice(RF_PRODUCTS) + rng.choice(RF_INV))]
     r = rng.random()
     if r < 0.85:
-        fields.append(rng.choice(RF_OUT))
+        fields.append(sub(rng.choice(RF_OUT + ["d:3", "d:dummy"])))
         fl = rng.choice(RF_FLAVOR)
         if fl:
             fields.append(fl)
@@ -339,25 +400,26 @@ def gen_remap_line(rng, mode=None):
     return line
 
 
-def gen_remap_text(rng, mode=None):
-    lines = [gen_remap_line(rng, mode) for _ in range(rng.choice([0, 1, 2, 2, 3, 4, 6, 8]))]
+def gen_remap_text(rng, mode=None, D="d", V3="3"):
+    lines = [gen_remap_line(rng, mode, D, V3) for _ in range(rng.choice([0, 1, 2, 2, 3, 4, 6, 8]))]
     nl = rng.choice(["\n", "\n", "\n", "\r\n", "\r"])
     return nl.join(lines) + (nl if rng.random() < 0.8 else "")
 
 
 def gen_rfile(rng):
     mode = rng.choice([None, None, None, "create", "create", "install", ""])
-    texts = [gen_remap_text(rng, mode)]
+    D, V3 = long_names(rng)
+    texts = [gen_remap_text(rng, mode, D, V3)]
     r = rng.random()
     if r < 0.35:
-        texts.append(gen_remap_text(rng, mode))
+        texts.append(gen_remap_text(rng, mode, D, V3))
     elif r < 0.45:
         texts.insert(rng.choice([0, 1]), None)          # a directory without manifest.remap
-    extra = gen_rows(rng, "free") if rng.random() < 0.5 else []
-    deps = gen_deps_small(rng, prods=("a", "b", "c", "d", "e", "tcltk"), vers=("1", "2", "3"))
+    extra = gen_rows(rng, "free", D, V3) if rng.random() < 0.5 else []
+    deps = gen_deps_small(rng, prods=("a", "b", "c", D, "e", "tcltk"), vers=("1", "2", V3), wide=D != "d")
     return {"kind": "rfile", "texts": texts, "mode": mode,
             "extra": extra, "fl": rng.choice(["Linux64", "Linux64", "generic", "Darwin"]), "deps": deps,
-            "known": sorted(set(rng.choice(["e", "b", "tcltk"]) for _ in range(rng.choice([0, 0, 1, 2]))))}
+            "known": sorted(set(rng.choice(["e", "b", "tcltk", D]) for _ in range(rng.choice([0, 0, 1, 2]))))}
 
 
 PR_WORDS = ["a", "b", "c", "py-x", "q_1"]
@@ -367,16 +429,101 @@ PR_VERS = ["1", "2.0", "any", "svn+1", "1:2", "*"]
 def gen_print(rng):
     rows = []
     odd = rng.random() < 0.3
+    wide = rng.random() < P_WIDE_CASE
     for _ in range(rng.choice([0, 1, 2, 3, 5])):
-        p = rng.choice(PR_WORDS + (["x#y", "[m]p", "verbose=1", "p:q", "p=q", "verbose"] if odd else []))
-        v = rng.choice(PR_VERS + (["Any", "v#1"] if odd else []))
+        p = wpick(rng, wide, PR_WORDS + (["x#y", "[m]p", "verbose=1", "p:q", "p=q", "verbose"] if odd else []), LONG_PRODUCTS)
+        v = wpick(rng, wide, PR_VERS + (["Any", "v#1"] if odd else []), LONG_VERSIONS)
         if rng.random() < 0.25:
             q, w = rng.choice([None, None, "e"] if odd else [None]), None
         else:
-            q = rng.choice([None, p, "e", "f-2"] + (["e:f"] if odd else []))
-            w = rng.choice(["1", "2.0", "3+1", "1:2"] + (["any", "None", "none", "noReinstall", "w#1"] if odd else []))
-        rows.append([p, v, q, w, rng.choice(["generic", "generic", "Linux64", "Darwin"])])
+            q = wpick(rng, wide, [None, p, "e", "f-2"] + (["e:f"] if odd else []), LONG_PRODUCTS)
+            w = wpick(rng, wide, ["1", "2.0", "3+1", "1:2"] + (["any", "None", "none", "noReinstall", "w#1"] if odd else []),
+                      LONG_VERSIONS)
+        rows.append([p, v, q, w, wpick(rng, wide, ["generic", "generic", "Linux64", "Darwin"], LONG_FLAVORS)])
     return {"kind": "print", "rows": rows}
+
+
+# ------------------------------------------------------------------ directed family: field widths
+
+def gen_widths(rng):
+    """every column of the two writers met by a field one short of its width, exactly as wide, one wider and
+    much wider - the wide field in the middle of the list, between ordinary entries - through the single-shot
+    cases and through the operation sequences on one object"""
+    cases = []
+    tag = "current"
+    for plen in (19, 20, 21, 40):
+        for flen in (9, 10, 11, 15):
+            P, F = word_of("meas", plen), word_of("Linux64-glibc2.17-x86", flen)
+            for where in ("defl", "entry", "override"):
+                for nex in (0, 2):
+                    v = rng.choice(VERSIONS[:5] + LONG_VERSIONS)
+                    ex = [rng.choice(["x", "1.0"] + LONG_EXTRAS) for _ in range(nex)]
+                    entries = [["afw", "1.0", None, []], [P, v, F if where == "entry" else None, ex],
+                               ["zlib", "1.2.5", None, ["x"]]]
+                    rng.shuffle(entries)
+                    cases.append({"kind": "tl", "tag": tag, "defl": F if where == "defl" else "Linux64",
+                                  "entries": entries, "fa": F if where == "override" else None, "rfl": F,
+                                  "bad": False, "family": "widths"})
+            ops = [["add", "afw", "1.0", None, []], ["add", P, rng.choice(VERSIONS[:5] + LONG_VERSIONS), None, ["x"]],
+                   ["write", "f1", F, False], ["write", "f2", None, rng.random() < 0.3], ["write", "f2", None, False],
+                   ["read", "f2"], ["write", "f3", F, False]]
+            cases.append({"kind": "tlops", "tag": tag, "defl": rng.choice(["Linux64", F]), "ops": ops,
+                          "rfls": ["Linux64", F], "bad": False, "family": "widths"})
+    longs = {"product": "meas", "flavor": "Linux64-glibc2.17-x86", "version": "7.3.1.0+svn", "table": "ups/",
+             "dir": "Linux64/"}
+    for col, w in sorted(M_COLS.items()):
+        for n in (w - 1, w, w + 1, w + 15):
+            W = word_of(longs[col], n)
+            via = rng.choice(["dep", "fa", "efl"]) if col == "flavor" else "dep"
+            mid = {"product": "python", "version": "2.6.2", "flavor": rng.choice([None, "Linux64"]), "table": "a.table",
+                   "dir": rng.choice([None, "a/1"]), "distid": rng.choice(IDS + LONG_IDS), "opt": False}
+            if via == "dep":
+                mid[col] = W
+            elif via == "efl":
+                mid["flavor"] = None
+            deps = [gen_dep(rng, False), mid, gen_dep(rng, False)]
+            fa, efl = (W if via == "fa" else None), (W if via == "efl" else "Linux64")
+            cases.append({"kind": "mrt", "product": "top", "version": "1.0", "deps": deps, "noopt": rng.random() < 0.5,
+                          "fa": fa, "efl": efl, "bad": False, "family": "widths"})
+            ops = [["add", d] for d in deps] + [["write", "f1", False, fa, False], ["read", "f1", False, False],
+                                                ["write", "f2", True, None, False]]
+            cases.append({"kind": "mops", "product": "top", "version": "1.0", "efl": efl, "ops": ops, "bad": False,
+                          "family": "widths"})
+    return cases
+
+
+def width_marks(c):
+    """histogram keys: which columns of the writer a case's fields fill exactly / overflow"""
+    k = c["kind"]
+    seen = {}
+
+    def see(col, w, x):
+        if isinstance(x, str) and x:
+            seen[col] = max(seen.get(col, 0), 2 if len(x) > w else 1 if len(x) == w else 0)
+    if k in ("tl", "tlops"):
+        adds = c["entries"] if k == "tl" else [o[1:] for o in c["ops"] if o[0] == "add"]
+        fas = [c["fa"]] if k == "tl" else [o[2] for o in c["ops"] if o[0] == "write"]
+        if not ((wf_case_tl(c) if k == "tl" else OPS.wf_tlops(c)) and adds):
+            return []
+        for p, v, f, ex in adds:
+            see("product", 20, p)
+            see("flavor", 10, f if f is not None else (c["defl"] or "generic"))
+        for fa in fas:
+            see("flavor", 10, fa)
+    elif k in ("mrt", "mops"):
+        deps = c["deps"] if k == "mrt" else [o[1] for o in c["ops"] if o[0] == "add"]
+        fas = [c["fa"]] if k == "mrt" else [o[3] for o in c["ops"] if o[0] == "write"]
+        if not ((wf_case_mrt(c) if k == "mrt" else OPS.wf_mops(c)) and deps):
+            return []
+        for d in deps:
+            for col, w in M_COLS.items():
+                see(col, w, d[col] if d[col] else (c["efl"] if col == "flavor" else None))
+        for fa in fas:
+            see("flavor", 12, fa)
+    else:
+        return []
+    marks = ["widths/%s/%s=%s" % (k, col, "wider" if cl == 2 else "exact") for col, cl in sorted(seen.items()) if cl]
+    return marks or ["widths/%s/all-narrower" % k]
 
 
 # ------------------------------------------------------------------ implementation (forked child)
@@ -1178,6 +1325,10 @@ def evaluate(ctx, cases, count=True):
                         and any(o[0] == "write" for o in c["ops"])):
                 nt = json.dumps(c, sort_keys=True)
             ctx.count(1, key=shape(c), nontrivial=nt)
+            for mk in width_marks(c):
+                ctx.bump(mk)
+            if c.get("family"):
+                ctx.bump("family/%s/%s" % (c["family"], k))
         if "crash" in i or "crash" in m:
             ctx.disagree(c, m, i, where="crash")
             results.append((c, m, i))
@@ -1296,6 +1447,13 @@ def setup_ctx(ctx):
                 "Manifest (addDependency, write with noOptional / flavor / noaction, read with setproduct / "
                 "shouldRecurse, reverse), the object and every file observed after every step, every written file "
                 "read back by fresh readers of up to four flavors; "
+                "field WIDTHS: in 40% of the cases of every stream a third of the fields (product, version, flavor - "
+                "entry's, list's, override, writer's, reader's -, table file, directory, id, extra columns, the "
+                "manifest's own product and version, the products and versions of remap rows and files) are words of "
+                "9-60 characters chosen at the writers' column widths -1/0/+1 (tag list 20/10, manifest "
+                "15/12/10/25/30) and beyond; a directed family (152 cases) puts a name of 19/20/21/40 and a flavor of "
+                "9/10/11/15 characters (as the list's, an entry's, the override) into tag lists and operation "
+                "sequences, and a field of w-1/w/w+1/w+15 characters into every manifest column; "
                 "a case is non-trivial when it has at least one entry (and one row); distinct = distinct case")
     ctx.trusted_base = common.COMMON_TRUSTED + [
         "modelled, not verified: python re (the two header patterns, non-space runs), str.split/strip/startswith/"
@@ -1317,6 +1475,7 @@ def run(ctx):
         ctx.coqchk(["Eupsv.Props.C18"])
     cases = corpus_cases()
     rng = ctx.rng
+    cases += gen_widths(rng)
     for _ in range(ctx.size(1500, 40000)):
         cases.append(gen_mrt(rng))
     for _ in range(ctx.size(700, 15000)):
